@@ -13,6 +13,15 @@ CORPUS = [
     ("(seq (r int) (d (of (i 1) (i 2)) (seqof int)))", "(seq (i 5) (of))"),                # DEFAULT of constructed type, empty value
     ("(seq (r int) (d (seq (i 9)) (tag i c 1 (seq (o int)))))", "(seq (i 5) (seq absent))"),
     ("(seq (d (ch 0 (i 1)) (choice (r int) (r (tag i c 1 int)))))", "(seq (ch 1 (i 1)))"),   # T14 CHOICE equality
+    # ANY holding an encoding with nested indefinite lengths (what the CER encoder produces for constructed inner values):
+    # the decoders hand the octets back unchanged, end-of-octets of the inner elements included
+    ("(seq (r int) (r any))", "(seq (i 1) (any 30803080020105000000 00))".replace(' 00))', '00))')),
+    ("(seq (r int) (r any))", "(seq (i 1) (any 3080240004016100000000))".replace('24000401610000', '2480040161' + '0000')),
+    ("(tag e c 2 any)", "(any 30800201050000)"),
+    ("(tag e c 2 any)", "(any 308030800201050000' + '0000)".replace("' + '", '')),
+    ("(tag i c 2 any)", "(any 30800201050000)"),
+    ("any", "(any 3080308002010500000000)"),
+    ("(seq (r (tag e c 0 any)) (o (tag i c 1 any)))", "(seq (any 24800401610401620000) (any 30800000))"),
 ]
 
 
@@ -42,6 +51,8 @@ def mutate(rng, data):
 def check_case(rep, drv, case, rng, pairs=PAIRS):
     encs = {}
     for e in ('der', 'cer'):
+        if not any(p[0] == e for p in pairs):
+            continue
         ie = engine.corr_encode(rep, drv, case, ENC_MODE[e])
         if ie[0] != 'ok':
             sig = engine.encode_refusal_region(case, ie) or ('encode-' + str(ie[1]))
@@ -103,7 +114,11 @@ def run(rep, tier, seed):
         v = gen.val_of_sexp(gen.parse_sexps(vs)[0])
         case = engine.Case(t, v)
         rep.case('corpus ' + case.canon)
-        check_case(rep, drv, case, None)
+        if '(any 3080' in vs or '(any 2480' in vs:
+            # the ANY holds an indefinite-length encoding: a value for the CER encoder only (inside DER output it would not be DER)
+            check_case(rep, drv, case, None, pairs=[p for p in PAIRS if p[0] == 'cer'])
+        else:
+            check_case(rep, drv, case, None)
     # long strings (CER segments of 1000 octets), all string kinds incl. multi-octet character sets
     g = gen.Gen(rng)
     for kind in [4, 12, 22, 28, 30, 19]:
